@@ -196,53 +196,3 @@ func VH_C11_SelfAdvance() {
 	verifrt.Reach("end")
 }
 
-// VH_C13_EngineSteps: a backend failure in a step the engine performs by itself
-// (ReadyForAll / PayAnte / PayBlinds after the collection point completed) is
-// reported through the game error callback and, with the handler startGame
-// installs, through the table error callback.
-func VH_C13_EngineSteps() {
-	m := verifrt.Cfg("m")
-	which := verifrt.Cfg("point") // 0 ready, 1 ante, 2 blinds
-	n := m
-	w := vhNewWorld(n, verifrt.Cfg("M"), m, false)
-	te := w.te
-	w.bk.faults = true
-	// startGame wires the real handlers (OnGameErrorUpdated -> emitErrorEvent)
-	verifrt.Assume(!verifrt.BoolI("bk.fail", 0))
-	err := te.startGame()
-	verifrt.Assert(err == nil, "startGame succeeds")
-	g := te.game.(*game)
-	g.rg.ModelSetStepped(true)
-	gs := vhRequestState(m, which)
-	if which == 1 {
-		verifrt.Assume(gs.Meta.Ante > 0)
-	}
-	verifrt.Assume(gs.Status.CurrentPlayer >= 0) // the hand engine always designates a current player once initialised
-	g.gs = gs
-	w.bk.tag, w.bk.tagN = "bk1", 1
-	calls0 := len(w.bk.calls)
-	g.handleGameState(gs)
-	// nobody answers: the response timeout completes the collection point
-	if g.rg.ModelTimerArmed() {
-		g.rg.ModelFireTimeout()
-		for i := 0; i < m+1; i++ {
-			if g.rg.ModelQueueLen() > 0 {
-				g.rg.ModelProcessOne()
-				g.rg.ModelRunCompletion()
-			}
-		}
-	}
-	asked := len(g.rg.GetParticipantStates()) > 0
-	if asked {
-		verifrt.Assert(len(w.bk.calls) == calls0+1, "the engine-side step is attempted once")
-		errsBefore := w.rec.errors
-		verifrt.RunPendingNamed("emitErrorEvent") // the error event is emitted from a goroutine (`go te.emitErrorEvent`)
-		if verifrt.BoolI("bk.fail", 1) {
-			verifrt.Reach("step failed")
-			verifrt.Assert(w.rec.errors == errsBefore+1 && w.rec.lastErr == vhErrBackend, "a failing engine-side step is reported through the table error callback")
-		} else {
-			verifrt.Assert(w.rec.errors == errsBefore, "no error report when the step succeeds")
-		}
-	}
-	verifrt.Reach("end")
-}
